@@ -134,7 +134,7 @@ func check(c *pbt.Case, r *pbt.R) {
 		for _, mk := range ref.AsTargets() {
 			t1, t2 := mk(), mk()
 			var a1, a2 bool
-			if obs.Try(func() { a1 = errors.As(inner, t1) }) != "" || !a1 {
+			if obs.Try(func() { a1 = ref.As(inner, t1) }) != "" || !a1 { // (the reference algorithm: the library's own As is what is being judged)
 				continue
 			}
 			if obs.Try(func() { a2 = errors.As(w, t2) }) != "" {
